@@ -32,6 +32,41 @@ def replay(model, obligation):
     from contracts.native import rf
     cl = rf.load_cluster()
     fails = []
+    if '/_Scheduler/' in obligation:
+        # the real scheduler thread, a real executor: after shutdown() nothing that is scheduled runs or stays queued
+        import time
+        from concurrent.futures import ThreadPoolExecutor
+        ex = ThreadPoolExecutor(1)
+        ran = []
+        s = cl._Scheduler(ex)
+        s.schedule(0, ran.append, 'before')
+        t0 = time.time()
+        while not ran and time.time() - t0 < 5:
+            time.sleep(0.01)
+        s.shutdown()
+        s.schedule(0, ran.append, 'after-schedule')
+        s.schedule_unique(0, ran.append, 'after-schedule_unique')
+        time.sleep(0.3)
+        queued = s._queue.qsize()
+        ex.shutdown(wait=True)
+        if ran != ['before'] or queued:
+            fails.append('tasks run: %r (expected only the one scheduled before shutdown); %d entries still queued after shutdown' % (ran, queued))
+        return {'reproduced': bool(fails), 'detail': '; '.join(fails) or 'nothing scheduled after shutdown ran or stayed queued'}
+    if '/requests-after-shutdown/' in obligation:
+        from cassandra.cluster import NoHostAvailable
+        for states in ((), ('shutdown',), (None,), ('shutdown', None), ('shutdown', 'shutdown')):
+            log = []
+            hosts = [rf.Host('h%d' % i) for i in range(len(states))]
+            pools = {h: rf.Pool(log, h, st) for h, st in zip(hosts, states) if st}
+            f = rf.future(cl, rf.Session(log, pools), hosts)
+            errs = []
+            f.add_errback(errs.append)
+            r = f.send_request()
+            sends = [e for e in log if e[0] in ('send', 'borrow')]
+            if r is not False or len(errs) != 1 or not isinstance(errs[0], NoHostAvailable) or len(errs[0].errors) != len(hosts) or sends or not f._event.is_set():
+                fails.append('request on a session whose pools are %r: send_request returned %r, errbacks %r, borrowed/sent %r, waiters released %s'
+                             % (states, r, errs, sends, f._event.is_set()))
+        return {'reproduced': bool(fails), 'detail': '; '.join(fails[:2]) or 'refused with NoHostAvailable naming every host'}
     if 'ControlConnection' in obligation:
         opened = []
         cc = cl.ControlConnection.__new__(cl.ControlConnection)
